@@ -1,5 +1,6 @@
 import SpVerif.Drive.Util
 import SpVerif.Model.Post
+import SpVerif.Lemmas.PostTotal
 open Lean
 
 namespace SpVerif.Drive.PostGlue
@@ -85,7 +86,9 @@ def dictJson (d : Dict PVal) : Json := Json.mkObj (sortKvs (d.map (fun kv => (kv
 def nspFields (n : Nsp PVal) : List (String × Json) :=
   [("attrs", dictJson n.attrs),
    ("subgroups", match n.subgroups with | some s => dictJson s | none => Json.null),
-   ("keys", Json.arr (((n.keys.map unchars).toArray.qsort (· < ·)).map Json.str))]
+   ("keys", Json.arr (((n.keys.map unchars).toArray.qsort (· < ·)).map Json.str)),
+   -- attribute names other than `subgroups` in namespace order (`list(vars(ns))`)
+   ("order", jstrs (dkeys n.attrs))]
 
 /-- op `post.postprocess`: {ps, raw} ↦ outcome of `_postprocessing(raw)` -/
 def opPostprocess (c : Json) : R Json := do
@@ -93,9 +96,14 @@ def opPostprocess (c : Json) : R Json := do
     return Json.mkObj [("o", "unmodelled"), ("why", Json.str why)]
   let ps ← parsePState (← obj c "ps")
   let raw ← parseKvs (← arr c "raw")
-  match postprocess palg ps raw with
-  | .ok n => return Json.mkObj (("o", Json.str "ok") :: nspFields n)
-  | .raise e => return Json.mkObj [("o", "raise"), ("exc", excName e)]
+  -- the hypothesis of `c09_postprocess_total`, decided on this input
+  let wf := Json.bool (decide (WellFormed ps raw))
+  -- classes whose constructor raises (`__post_init__`)
+  let fails := ((strList c "ctor_fail").toOption.getD []).map chars
+  let alg : Alg PVal := { palg with construct := fun cls kvs => if fails.contains cls then none else some (.inst cls kvs) }
+  match postprocess alg ps raw with
+  | .ok n => return Json.mkObj (("o", Json.str "ok") :: nspFields n ++ [("well_formed", wf)])
+  | .raise e => return Json.mkObj [("o", "raise"), ("exc", excName e), ("well_formed", wf)]
   | .unmodelled w => return Json.mkObj [("o", "unmodelled"), ("why", jstr w)]
 
 /-- the engine of op `post.parse`: the recorded behaviour of the stdlib parser on this argv -/
@@ -116,20 +124,43 @@ def opParse (c : Json) : R Json := do
   let sa : Table := (← strList c "sp_dests").map (fun d => { dest := chars d })
   let argv := (← strList c "argv").map chars
   let api ← str c "api"
-  let res := if api == "parse_args" then spParseArgs palg (fun _ _ => e) ps ua sa argv
-             else spParse palg (fun _ _ => e) ps ua sa argv
+  -- exit status of the subgroup pre-parser on this argv (null = it did not exit)
+  let preCode : Option Nat := match c.getObjVal? "pre" with
+    | .ok j => (j.getNat?).toOption
+    | .error _ => none
+  let pre : Pre := fun _ => preCode
+  let res := if api == "parse_args" then spParseArgs palg pre (fun _ _ => e) ps ua sa argv
+             else spParse palg pre (fun _ _ => e) ps ua sa argv
+  -- the hypotheses of `c09_frame` / `c09_accept`, decided on what the engine returned for this run
+  let hyps : List (String × Json) := match e with
+    | .ok raw _ => [("frame_hyps", Json.bool (decide (FrameHyps ps ua sa raw))),
+                    ("well_formed", Json.bool (decide (WellFormed ps raw)))]
+    | _ => []
   match res with
-  | .ok n rest => return Json.mkObj (("o", Json.str "ok") :: nspFields n ++ [("rest", jstrs rest)])
+  | .ok n rest => return Json.mkObj (("o", Json.str "ok") :: nspFields n ++ [("rest", jstrs rest)] ++ hyps)
   | .exit code => return Json.mkObj [("o", "exit"), ("code", Json.num code)]
   | .engineRaise => return Json.mkObj [("o", "engine-raise")]
-  | .raise e => return Json.mkObj [("o", "raise"), ("exc", excName e)]
+  | .raise e => return Json.mkObj (("o", Json.str "raise") :: ("exc", Json.str (excName e)) :: hyps)
   | .unmodelled w => return Json.mkObj [("o", "unmodelled"), ("why", jstr w)]
+
+/-- op `post.set_defaults`: {wrapper_dests, kw} ↦ which keywords of `parser.set_defaults(**kw)` reach `_defaults`, and
+    whether a file is read -/
+def opSetDefaults (c : Json) : R Json := do
+  let wd := (← strList c "wrapper_dests").map chars
+  let kw := (← strList c "kw").map chars
+  let t ← bool c "cp_truthy"
+  let reads := setDefaultsReadsFile kw t
+  -- the harness names a file that does not exist: `read_file` raises before anything reaches `_defaults`
+  let passed := if reads then [] else setDefaultsPassed wd kw
+  return Json.mkObj [("passed", Json.arr (((passed.map unchars).toArray.qsort (· < ·)).map Json.str)),
+                     ("reads_file", Json.bool reads)]
 
 end SpVerif.Drive.PostGlue
 
 namespace SpVerif.Drive
 
 def postOps : List (String × (Json → R Json)) :=
-  [("post.postprocess", PostGlue.opPostprocess), ("post.parse", PostGlue.opParse)]
+  [("post.postprocess", PostGlue.opPostprocess), ("post.parse", PostGlue.opParse),
+   ("post.set_defaults", PostGlue.opSetDefaults)]
 
 end SpVerif.Drive
